@@ -7,7 +7,7 @@
    rejected (Props/C10.v), and the inputs that used to crash no longer do (in the model; the
    implementation is run on the same inputs on every check). *)
 From JS Require Import Base Bytes Scanner ScanRun Directive Core Entry C01Proofs ScanTotal StackSafe.
-From JS Require Import Expand Catalog CatalogTotal.
+From JS Require Import Expand Catalog CatalogTotal ExpandPlaced.
 From JS Require ScannerProg.
 From JS Require IncludeName Inventory InventoryExpected.
 
@@ -42,9 +42,26 @@ Proof. exact scanner_never_pops_an_empty_stack. Qed.
    Description, BaseUrl / Body / Protocol without a parent), whatever the catalog state, the ban
    list and the body texts *)
 Theorem C01_catalog_builder_never_reaches_an_impossible_state :
-  forall read_body banned fuel pf ds c,
-    forallb (placed pf None) ds = true -> forall pn, add_all read_body banned fuel c ds <> CPanic pn.
+  forall read_body banned fuel ds c,
+    forallb (placed None) ds = true -> forall pn, add_all read_body banned fuel c ds <> CPanic pn.
 Proof. exact add_all_never_panics. Qed.
+
+(* ... and the premise holds for whatever MACRO/PASTE expansion produces: for EVERY scanned forest
+   whose MACRO directives stand at the top level (checked on every forest the model scans) and
+   every macro graph, the expanded forest is nested as the table prescribes and MACRO-free - every
+   copied directive is re-attached through the same context resolution - so the interaction pass
+   never reaches an impossible state on any document *)
+Theorem C01_expanded_forest_is_well_nested :
+  forall enum_check fuel roots ex,
+    macros_only_on_top roots -> compile_macros enum_check fuel roots = XOk ex ->
+    forallb (placed None) (ex_forest ex) = true.
+Proof. exact expanded_forest_is_placed. Qed.
+
+Theorem C01_catalog_builder_is_total_after_expansion :
+  forall enum_check read_body banned fuel fuel' roots ex c,
+    macros_only_on_top roots -> compile_macros enum_check fuel roots = XOk ex ->
+    forall pn, add_all read_body banned fuel' c (ex_forest ex) <> CPanic pn.
+Proof. exact catalog_builder_is_total_after_expansion. Qed.
 
 Theorem C01_no_nil_current_directive :
   forall st l, core_next st l <> CPanic CPNilCurrentDirective.
@@ -62,6 +79,8 @@ Print Assumptions C01_inventory_is_the_reviewed_one.
 Print Assumptions C01_scanner_control_flow_is_total.
 Print Assumptions C01_scanner_never_pops_an_empty_stack.
 Print Assumptions C01_catalog_builder_never_reaches_an_impossible_state.
+Print Assumptions C01_expanded_forest_is_well_nested.
+Print Assumptions C01_catalog_builder_is_total_after_expansion.
 Print Assumptions C01_no_nil_current_directive.
 Print Assumptions C01_include_validation_total.
 Print Assumptions C01_repaired_crashes_stay_repaired.
